@@ -3,6 +3,7 @@ import ast
 
 import sympy as sp
 
+from ..astutil import func_params
 from ..report import RuleDef
 from ..src import AnalysisError
 from ..vg import (App, BoolT, Cmp, Const, Evaluator, Frame, Ite, Obj, Tup,
@@ -503,6 +504,63 @@ def memoised_geometry(m, ci, names=None):
     return out
 
 
+def _stale_after_assignment(ctx, ci, attrs):
+    """[(param, attr)] such that after `obj.param = NEW` on a constructed instance the stored attribute differs from the
+    one the constructor computes from the updated parameters.  Attribute stores run the class's __setattr__ and the
+    descriptors' __set__ (single-field validators switched off: the values are type-correct by construction)."""
+    from ..model import FuncInfo
+    from ..vg import mark_quantity, reset_marks, Unknown, is_unknown
+    m = ctx.model
+    init = m.method(ci, '__init__')
+    ps = [p for p in func_params(init.node)[1:] if p not in ('meta', 'visual')]
+
+    def value(p, tag, ints):
+        k = m.descriptor_kind(ci, p)
+        if k in ('ScalarPixCoord', 'OneDPixCoord'):
+            return Obj('PixCoord', {}, tag + p, m.cls('PixCoord'))
+        if k in ('PositiveScalarAngle',):
+            return mark_quantity(sym(tag + p, positive=True))
+        if k == 'ScalarAngle':
+            return mark_quantity(sym(tag + p))
+        if p in ints:
+            return sp.Integer(5 if tag == 'cur_' else 7)
+        return sym(tag + p, positive=True)
+
+    def new_ev():
+        ev = evaluator(ctx)
+        for d_ in m.subclasses('RegionAttribute'):
+            v_ = d_.methods.get('_validate')
+            if v_ is not None:
+                ev.hooks[v_.qualname] = lambda e, a, k: Const(None)
+        ev.descriptor_sets = True
+        return ev
+
+    def attempt(ints):
+        bad = []
+        for p in ps:
+            ev = new_ev()
+            obj = ev.construct(ci, [], {q: value(q, 'cur_', ints) for q in ps}, 0)
+            ref = ev.construct(ci, [], {q: value(q, 'NEW_' if q == p else 'cur_', ints) for q in ps}, 0)
+            node = ast.parse(f'def _assign(obj, new):\n    obj.{p} = new\n').body[0]
+            fi = FuncInfo('_assign', f'{ci.module}:_assign', ci.module, None, node, ci.path)
+            ev.run(fi, [obj, value(p, 'NEW_', ints)], {})
+            for a in attrs:
+                got, want = obj.fields.get(a), ref.fields.get(a)
+                if got is None or want is None or is_unknown(want) or is_unknown(got):
+                    return None
+                if not same(got, want):
+                    bad.append((p, a))
+        return bad
+
+    reset_marks()
+    r = attempt(set())
+    if r is None:
+        # integer-valued parameters (vertex counts) drive array constructors: use constants for them
+        r = attempt({p for p in ps if m.descriptor_kind(ci, p) == 'PositiveScalar' and p.startswith('n')})
+    ctx.need(r is not None, f'{ci.name}.__setattr__', 'the stored derived attributes could not be evaluated after an assignment')
+    return r
+
+
 def r8(ctx):
     """the geometry is a function of the region's *current* parameters: every attribute the geometry methods read is a
     parameter (assignable, validated, compared, copied, serialised), a property/method, or a class constant — not a value
@@ -538,6 +596,9 @@ def r8(ctx):
             ctx.bad(ci.name, f'memoised:{name}',
                     f'{ci.name}.{name} {why}; the region\'s parameters (and the operands of a compound) can change afterwards, so '
                     'membership, box, mask and artist can describe an old shape', f.loc())
+        elif stale and m.method(ci, '__setattr__') is not None and not _stale_after_assignment(ctx, ci, [a for a, _ in stale]):
+            ctx.ok(ci.name, f'stored derived attributes {[a for a, _ in stale]} are recomputed by __setattr__: after every '
+                   'parameter assignment they equal what the constructor computes from the current parameters (by evaluation)')
         elif stale:
             a, where = stale[0]
             ctx.bad(ci.name, f'stale-derived:{a}',
